@@ -166,15 +166,15 @@ impl Property for C13 {
             v.push(Phase::Enumerate { name: "all-pairs-len4", total: n4, exhaustive: true, gen: Arc::new(|i| Some(C13Case::Row { maxlen: 4, i: i as u32 })) });
             v.push(Phase::Enumerate { name: "sorted-run-len4", total: 1, exhaustive: true, gen: Arc::new(|_| Some(C13Case::SortedRun { maxlen: 4 })) });
         }
-        v.push(Phase::Random { name: "long-pairs", cases: tier.pick(300_000, 6_000_000), strat: Arc::new(|| long_pair().prop_map(|(a, b)| C13Case::Pair(a, b)).boxed()) });
+        v.push(Phase::Random { name: "long-pairs", cases: tier.pick(1_000_000, 6_000_000), strat: Arc::new(|| long_pair().prop_map(|(a, b)| C13Case::Pair(a, b)).boxed()) });
         v.push(Phase::Random {
             name: "long-triples",
-            cases: tier.pick(100_000, 2_000_000),
+            cases: tier.pick(300_000, 2_000_000),
             strat: Arc::new(|| (long_pair(), long_string(), any::<bool>()).prop_map(|((a, b), c, m)| if m { C13Case::Triple(a.clone(), b, format!("{a}{c}")) } else { C13Case::Triple(a, b, c) }).boxed()),
         });
         v.push(Phase::Random {
             name: "evr-nevra",
-            cases: tier.pick(100_000, 2_000_000),
+            cases: tier.pick(300_000, 2_000_000),
             strat: Arc::new(|| {
                 let comp = || prop_oneof![3 => "[0-9a-b.~^]{0,5}", 2 => "[0-9a-b.:-]{0,5}", 1 => Just(String::new()), 1 => Just("1".to_string())];
                 let epoch = || prop_oneof![2 => Just(String::new()), 1 => Just("0".to_string()), 2 => "[0-9]{1,3}"];
